@@ -75,7 +75,7 @@ impl RespParser {
         }
         
         // Handle normal RESP protocol
-        match parse_frame(&self.buffer[self.position..])? {
+        match parse_frame(&self.buffer[self.position..], 0)? {
             Some((frame, consumed)) => {
                 self.position += consumed;
                 
@@ -107,11 +107,19 @@ impl RespParser {
 /// Parse a RESP frame from a byte slice
 /// Returns Some((frame, bytes_consumed)) if a complete frame is found
 pub fn parse_resp_frame(data: &[u8]) -> Result<Option<(RespFrame, usize)>> {
-    parse_frame(data)
+    parse_frame(data, 0)
 }
 
-/// Internal frame parser
-fn parse_frame(data: &[u8]) -> Result<Option<(RespFrame, usize)>> {
+/// Deepest nesting of arrays/maps/sets accepted. The parser recurses once per level, so
+/// without a limit a few kilobytes of `*1\r\n` overflow the stack of the command thread.
+pub const MAX_NESTING: usize = 128;
+
+/// Internal frame parser; `depth` is the number of containers around this frame
+fn parse_frame(data: &[u8], depth: usize) -> Result<Option<(RespFrame, usize)>> {
+    if depth > MAX_NESTING {
+        return Err(FerrousError::Protocol("Nesting too deep".into()));
+    }
+    
     if data.is_empty() {
         return Ok(None);
     }
@@ -121,12 +129,12 @@ fn parse_frame(data: &[u8]) -> Result<Option<(RespFrame, usize)>> {
         b'-' => parse_error(data),
         b':' => parse_integer(data),
         b'$' => parse_bulk_string(data),
-        b'*' => parse_array(data),
+        b'*' => parse_array(data, depth),
         b'_' => parse_null(data),
         b'#' => parse_boolean(data),
         b',' => parse_double(data),
-        b'%' => parse_map(data),
-        b'~' => parse_set(data),
+        b'%' => parse_map(data, depth),
+        b'~' => parse_set(data, depth),
         _ => Err(FerrousError::Protocol(format!(
             "Invalid RESP type byte: {}", data[0] as char
         ))),
@@ -201,7 +209,7 @@ fn parse_bulk_string(data: &[u8]) -> Result<Option<(RespFrame, usize)>> {
 }
 
 /// Parse an array: *2\r\n$3\r\nfoo\r\n$3\r\nbar\r\n
-fn parse_array(data: &[u8]) -> Result<Option<(RespFrame, usize)>> {
+fn parse_array(data: &[u8], depth: usize) -> Result<Option<(RespFrame, usize)>> {
     let (len_line, header_consumed) = match parse_line(data, 1)? {
         Some(v) => v,
         None => return Ok(None),
@@ -226,7 +234,7 @@ fn parse_array(data: &[u8]) -> Result<Option<(RespFrame, usize)>> {
     let mut total_consumed = header_consumed;
     
     for _ in 0..len {
-        match parse_frame(&data[total_consumed..])? {
+        match parse_frame(&data[total_consumed..], depth + 1)? {
             Some((frame, consumed)) => {
                 elements.push(frame);
                 total_consumed += consumed;
@@ -276,7 +284,7 @@ fn parse_double(data: &[u8]) -> Result<Option<(RespFrame, usize)>> {
 }
 
 /// Parse map (RESP3): %2\r\n+key1\r\n:1\r\n+key2\r\n:2\r\n
-fn parse_map(data: &[u8]) -> Result<Option<(RespFrame, usize)>> {
+fn parse_map(data: &[u8], depth: usize) -> Result<Option<(RespFrame, usize)>> {
     let (len_line, header_consumed) = match parse_line(data, 1)? {
         Some(v) => v,
         None => return Ok(None),
@@ -293,7 +301,7 @@ fn parse_map(data: &[u8]) -> Result<Option<(RespFrame, usize)>> {
     
     for _ in 0..len {
         // Parse key
-        let key = match parse_frame(&data[total_consumed..])? {
+        let key = match parse_frame(&data[total_consumed..], depth + 1)? {
             Some((frame, consumed)) => {
                 total_consumed += consumed;
                 frame
@@ -302,7 +310,7 @@ fn parse_map(data: &[u8]) -> Result<Option<(RespFrame, usize)>> {
         };
         
         // Parse value
-        let value = match parse_frame(&data[total_consumed..])? {
+        let value = match parse_frame(&data[total_consumed..], depth + 1)? {
             Some((frame, consumed)) => {
                 total_consumed += consumed;
                 frame
@@ -317,7 +325,7 @@ fn parse_map(data: &[u8]) -> Result<Option<(RespFrame, usize)>> {
 }
 
 /// Parse set (RESP3): ~2\r\n+elem1\r\n+elem2\r\n
-fn parse_set(data: &[u8]) -> Result<Option<(RespFrame, usize)>> {
+fn parse_set(data: &[u8], depth: usize) -> Result<Option<(RespFrame, usize)>> {
     let (len_line, header_consumed) = match parse_line(data, 1)? {
         Some(v) => v,
         None => return Ok(None),
@@ -333,7 +341,7 @@ fn parse_set(data: &[u8]) -> Result<Option<(RespFrame, usize)>> {
     let mut total_consumed = header_consumed;
     
     for _ in 0..len {
-        match parse_frame(&data[total_consumed..])? {
+        match parse_frame(&data[total_consumed..], depth + 1)? {
             Some((frame, consumed)) => {
                 elements.push(frame);
                 total_consumed += consumed;
